@@ -499,6 +499,15 @@ void big_operand_ops(Enumerator &E) {
                 size_t ts = b.target(o);
                 E.cell(nm("format", "fmt" + std::to_string(fi) + ",var" + std::to_string(var) + ",big", "a1=" + std::to_string(a1)), b, ts);
             }
+    // element counts beyond 32 bits (reserved address space, heap seam)
+    for (int t = 0; t < 4; t++)
+        for (uint32_t dz : {0u, 5u, 40u})
+            for (uint32_t sel : {3u, 32u + 20u, 64u + 11u}) {
+                Builder b; uint32_t d = b.buf(t, dz);
+                Op o; o.kind = B_HUGE; o.t = (uint8_t)t; o.a = d; o.b = sel;
+                size_t ts = b.target(o);
+                E.cell(nm("huge", "t" + std::to_string(t) + ",sel" + std::to_string(sel), "dst=" + std::to_string(dz)), b, ts);
+            }
     // the deprecated to_buffer(char_buffer&, bool, utf_validation_t) spelling
     for (unsigned which = 6; which < 8; which++)
         for (unsigned mode = 0; mode < 3; mode++)
